@@ -178,15 +178,20 @@ def forwarded_object_case(ctx, seed):
     from vlib.values import Obj
     rng = random.Random(seed)
     kind = ('memory', 'file', 's3')[seed % 3]
-    shape = ('tuple', 'list', 'dict', 'nested_tuple')[(seed // 3) % 4]
+    shape = ('tuple', 'list', 'dict', 'nested_tuple', 'deep_route')[(seed // 3) % 5]
 
     class ShapeWorld(World):
         def outcome(self, io, name, ralias, captured):
             if self.poison or io != 'in':
                 return World.outcome(self, io, name, ralias, captured)
             o = Obj(name='manifest', rows=[1, 2], seed=seed)
+            if shape == 'deep_route':
+                route = o                    # a route of 110 linked legs (values nested far deeper than a page of JSON usually is)
+                for i in range(110):
+                    route = [route, i] if i % 2 else {'next': route, 'leg': i}
+                return ('value', route)
             return ('value', {'tuple': (o, 'meta'), 'list': [o, 'meta'], 'dict': {'obj': o}, 'nested_tuple': ('x', (o, [3]))}[shape])
-    prog = {'seed_world': 5, 'class_level': False, 'extractor': None, 'params': None, 'opts': {'raise_rate': 0.0}, 'uid': 960000 + seed % 1000,
+    prog = {'seed_world': 5, 'class_level': False, 'extractor': None, 'params': ({'copy': True} if shape == 'deep_route' else None), 'opts': {'raise_rate': 0.0}, 'uid': 960000 + seed % 1000,
             'inputs': [{'name': 'in0', 'io': 'in', 'kind': 'instance', 'nparams': 1, 'resolver': None, 'capture': 'all', 'handler': None,
                         'fallback': None, 'run_original': False, 'substitute': ('none',), 'nested': [], 'alias': 'shelf.load'}],
             'outputs': [{'name': 'out0', 'io': 'out', 'kind': 'instance', 'nparams': 1, 'handler': None, 'fail_on_no_result': True, 'default': None,
@@ -194,6 +199,8 @@ def forwarded_object_case(ctx, seed):
             'body': [{'op': 'in', 'decl': 'in0', 'args': [{'lit': 1}], 'kwargs': {}, 'var': 'a'},
                      {'op': 'out', 'decl': 'out0', 'args': [{'var': 'a'}], 'kwargs': {}, 'var': 'b'},
                      {'op': 'out', 'decl': 'out0', 'args': [{'lit': 'tail'}], 'kwargs': {}, 'var': 'c'}], 'gen_seed': seed}
+    if shape == 'deep_route':
+        prog['body'].append({'op': 'return', 'expr': {'lit': 'done'}})     # (the default result would hold the route a second time: shared references)
     p2 = clone(prog)
     p2['body'].insert(1, {'op': 'mutate', 'var': 'a'})
     w = {'forwarded_object': True, 'case_seed': seed, 'cassette': kind, 'shape': shape}
